@@ -338,8 +338,8 @@ def sample_spec(draw, min_d=1, max_d=6, min_n=0, max_n=40, datatypes=('I', 'I', 
     pne = []
     for j in range(D):
         if log_amp and draw(st.booleans()):
-            a0 = draw(st.sampled_from(['1', '2', '3', '4', '4.5', '5', '8', '2.5']))
-            a1 = draw(st.sampled_from(['0', '1', '0.1', '10', '1.0']))
+            a0 = draw(st.sampled_from(['1', '2', '3', '4', '4.5', '5', '8', '2.5', '6', '7']))      # (also more than five decades)
+            a1 = draw(st.sampled_from(['0', '1', '0.1', '10', '1.0', '0.1', '0.01']))
             pne.append('%s,%s' % (a0, a1))
         else:
             pne.append('0,0')
